@@ -280,6 +280,18 @@ pub fn bitwise_memcpy(
     }
 }
 
+/// Verification wrappers (compiled only with `--cfg nomt_verif`): the two private mask helpers of
+/// `bitwise_memcpy`, exposed unchanged.
+#[cfg(nomt_verif)]
+pub mod verif {
+    pub fn first_chunk_mask(bit_start: usize) -> u64 {
+        super::first_chunk_mask(bit_start)
+    }
+    pub fn last_chunk_mask(bit_start: usize, bit_len: usize, n_chunks: usize) -> u64 {
+        super::last_chunk_mask(bit_start, bit_len, n_chunks)
+    }
+}
+
 #[cfg(feature = "benchmarks")]
 pub mod benches {
     use crate::beatree::benches::get_key_pair;
